@@ -83,6 +83,25 @@ def run(R):
                 st2, parent = mon.call(lambda: B.Builder().store_bits('1011').store_ref(c).store_ref(subs[0][0]).end_cell())
                 if st2 == 'ok':
                     emit_and_check(R, name + '/new-parent-of-serialised-cells', parent_r, parent, dict(W, sequence='children first, then a new parent'))
+        # objects derived from the cell are used (a builder made from it gets more references and bits, a slice of it is read), then the cell is emitted again
+        if ncells <= 400 and r.type == rc.ORD:
+            def use_derived():
+                b = c.to_builder()
+                if b.available_refs:
+                    b.store_ref(B.Builder().store_uint(0x2A, 7).end_cell())
+                if b.available_bits:
+                    b.store_bit(1)
+                b.end_cell()
+                s = c.begin_parse()
+                while s.remaining_refs:
+                    s.load_ref()
+                s.skip_bits(s.remaining_bits)
+                cp = c.copy()
+                cp.begin_parse().load_bits(min(3, len(cp.bits)))
+            st, e = mon.call(use_derived)
+            if st == 'ok':
+                emit_and_check(R, name + '/after-derived-objects-were-used', r, c, dict(W, sequence='to_builder()+store_ref/store_bit, begin_parse()+reads, copy(); then to_boc again'))
+                R.count('emissions_after_derived_use')
         R.case(mon.fp(r.hash) if ncells > 1 else None, sample={'class': name, 'cells': ncells})
         R.cover('classes', name)
         R.extra['largest_dag'] = max(R.extra.get('largest_dag', 0), ncells)
@@ -101,6 +120,7 @@ def run(R):
     R.floor('index_entries_verified', 50)
     R.floor('multi_bag_emissions', 20)
     R.floor('fresh_object_emissions', 20)
+    R.floor('emissions_after_derived_use', 20)
 
 
 def replay(R, w, rec):
